@@ -73,7 +73,7 @@ case "$TIER" in quick|thorough) ;; *) echo "usage: run.sh <Cxx> <quick|thorough>
 build_harness release
 if needs_dbg "$ID"; then build_harness dbg; fi
 
-if [ "$ID" = "C13" ]; then
+if [ "$ID" = "C13" ] || [ "$ID" = "C05" ]; then
   build_ws rayonh release
 fi
 if [ "$ID" = "C08" ]; then
